@@ -198,9 +198,14 @@ PASSPHRASES = {
     'astral': 'key\U0001d11e漢', 'long': 'L0ng-' * 40,
     'bytes': b'\xff\x00\xfe raw \x80', 'bytes_ascii': b'plain-bytes',
     'quote': 'it\'s "q" $x `y` \\z',
+    # lengths that make the key-derivation input an exact multiple of the
+    # hash block (PKCS#12: UTF-16BE + terminator; PBKDF: 64-byte blocks)
+    'len31': 'b' * 31, 'len63': 'P4ss' * 15 + 'xyz', 'len64': 'q' * 64,
+    'len32': 'Z' * 32, 'bytes62': b'r' * 62, 'bytes64': b's' * 64,
 }
 # passphrases that can be handed to command line tools
-TOOL_PW = {'ascii', 'unicode', 'long', 'quote', 'empty'}
+TOOL_PW = {'ascii', 'unicode', 'long', 'quote', 'empty', 'len31', 'len63',
+           'len64', 'len32'}
 
 BENIGN_COMMENTS = [
     'user@host', 'a b  c', 'with "quotes" and \\back\\slash\\',
@@ -2132,6 +2137,24 @@ def gen_cases(tier, seed):
                     c, cls = pick_comment(rng)
                     items.append([fmt, c, cls])
             add('pub', spec=spec, items=items)
+
+    # block-boundary passphrase lengths against every PBE family
+    for spec in ('ed25519', 'p256'):
+        if spec not in SPECS:
+            continue
+        items = []
+        for pwn in ('len31', 'len63', 'len64', 'len32', 'bytes62', 'bytes64'):
+            for fmt, enc in (('pkcs8-pem', ['des3-cbc', 'sha1', 1]),
+                             ('pkcs8-der', ['des2-cbc', 'sha1', 1]),
+                             ('pkcs8-pem', ['rc4-128', 'sha1', 1]),
+                             ('pkcs8-pem', ['des-cbc', 'md5', 1]),
+                             ('pkcs8-pem', ['aes256-cbc', 'sha256', 2]),
+                             ('pkcs1-pem', ['aes128-cbc', 'sha256', 2]),
+                             ('openssh', ['aes256-ctr', 'sha256', 2])):
+                if fmt == 'pkcs1-pem' and spec == 'ed25519':
+                    continue
+                items.append([fmt, enc, pwn, ['text', 'boundary']])
+        add('priv', spec=spec, p_openssl=True, p_keygen=True, items=items)
 
     if not quick:
         # the whole (format x cipher x hash x version) grid, every
